@@ -135,7 +135,7 @@ func c20Run(x *Ctx, prop string) {
 	for i := 0; i < 400; i++ {
 		seeds = append(seeds, strings.ReplaceAll(c20Input(r), "\x1b", ""))
 	}
-	execs := x.Pick(300000, 30000000)
+	execs := x.Pick(300000, 10000000)
 	if v, err := strconv.Atoi(os.Getenv("VERIF_FUZZ_EXECS")); err == nil && v > 0 {
 		execs = v // corpus maintenance (tools/update_corpus.sh)
 	}
